@@ -269,6 +269,18 @@ def step (st : DState) (line : String) : DState × String :=
         | .ok m => "R " ++ ratToString (glyphWidthV m dw2 cid)
         | .error e => showErr e
       | _, _, _ => "bad-op")
+  | "gdv" :: dw2 :: cid :: ws =>
+    (st, match (if dw2 == "-" then some none else
+                  match (dw2.splitOn "|").mapM parseNum with
+                  | some [a, b] => some (some (a.1, b.1))
+                  | _ => none), cid.toNat?, parseWElems ws with
+      | some dw2, some cid, some es =>
+        match getWidths2 es with
+        | .ok m =>
+          let d := glyphDispV m dw2 cid
+          "D " ++ (match d.1 with | some vx => ratToString vx | none => "None") ++ " " ++ ratToString d.2
+        | .error e => showErr e
+      | _, _, _ => "bad-op")
   | _ => (st, "bad-op")
 
 partial def loop (h : IO.FS.Stream) (out : IO.FS.Stream) (st : DState) : IO Unit := do
